@@ -3,7 +3,8 @@
 Proof stage: Properties/C12.v (invariants of the transition system Model/Pool.v, tie to the loop shape
 re-read from annet/parallel.py into Gen/Src_parallel.v).
 Correspondence: the REAL pool is driven under generated schedules (task durations, consumer delays, delay
-points of the ANNET_VERIF hook); Coq evaluates
+points of the ANNET_VERIF hook), with generator / retried tasks, callbacks and several pools per process
+(sessions, Spec/P_C12x.v); Coq evaluates
   holds = P_C12 on what the caller of irun/run really received, and
   agree = the recorded trace is a run of Model/Pool.v's `exec` (per-actor trace inclusion; the silent steps
           -- feeder flush, exit visibility -- are supplied by a witness search below and *checked* by Coq).
@@ -28,14 +29,27 @@ META = {
             "every reachable state in which the parent loop has exited has delivered exactly the submitted "
             "multiset -- for the repaired loop (break only when a get issued after the pool was seen empty finds "
             "nothing), whose shape is re-read from annet/parallel.py on every run; the loop as originally written "
-            "and the naive repair are refuted by concrete schedules. Correspondence: the real process pool is run "
-            "under generated schedules and Coq evaluates the property predicate on the delivered results and "
-            "replays each recorded trace through the model's step function.",
+            "and the naive repair are refuted by concrete schedules. Also proved for all inputs (Model/PoolSession.v): "
+            "invoke_retry delivers what the first attempt that does not die with a network error computes (for a "
+            "generator task the list of yielded values, never the generator object) whenever that attempt is among "
+            "the first net_retry+1, else the last network error; the protocol theorem lifted to such payloads; the "
+            "single-process path with retry and progress callbacks; and what the pools of one Parallel object "
+            "deliver is determined by the operations on that object alone (independence of the pools of a process). "
+            "Correspondence: the real process pool is run under generated schedules and Coq evaluates the property "
+            "predicate on the delivered results and replays each recorded trace through the model's step function; "
+            "extended runs use generator and plain tasks with k = 0..net_retry+1 leading BrokenPipe/ConnectionReset "
+            "errors, tune(net_retry=0..3), progress-logger-like callbacks, and sessions of several pools run one after "
+            "another by the same process, each pool judged by Coq (P_C12_session) against what was submitted to it "
+            "alone.",
     "technique": "Coq invariants over an executable labelled transition system; AST translator for the loop shape; "
-                 "hooked real-pool runs with Coq-checked trace inclusion",
+                 "hooked real-pool runs with Coq-checked trace inclusion; pure models of invoke_retry and of the per-object "
+                 "callback/tuning store, compared with the real single-process path and judged per pool in sessions",
     "note": "Partial w.r.t. the runtime: theorems are about the model; OS scheduling, signals, workers killed from "
-            "outside, task_timeout expiry, mp.Queue pipe-capacity effects and in-thread callbacks that multiply "
-            "results are not modelled. Assumed law (hypothesis of the theorems): a worker's put on the done queue "
+            "outside, task_timeout expiry, mp.Queue pipe-capacity effects and callbacks that multiply or drop "
+            "results are not modelled (callbacks are modelled and tested only as progress loggers: a lookup in a "
+            "table that contains the ids of their own run, the result returned unchanged); the independence theorem is "
+            "about the model's object store, its tie to the Python class is the session runs (testing); pools of one "
+            "process are run one after another, never concurrently. Assumed law (hypothesis of the theorems): a worker's put on the done queue "
             "is visible to the parent before its exit code is (mp.Queue joins its feeder thread at process exit). "
             "The tie to /repo is the regenerated loop shape plus trace inclusion on real runs (testing, bounded by "
             "the schedule generator).",
@@ -172,6 +186,123 @@ def random_grid(ctx, count: int) -> list[dict]:
         unp = [i for i in raising if rng.random() < 0.5] if rng.random() < 0.3 else []
         out.append(_mk(ids, p, m, raising=raising, tolerate=tol, mode=mode, dur=dur, consumer=cons, delay=delay,
                        src="grid", get_timeout=rng.choice([0.02, 0.03, 0.05]), unpicklable=unp))
+    return out
+
+
+# ------------------------------------------------------------------------------------------------------
+# extended runs: generator tasks, network-error retries (invoke_retry), tune(net_retry=...), callbacks, and
+# sessions = several pools run one after another by the SAME runner process
+
+
+def _mkx(ids, parallel, max_tasks, *, gen=True, flaky=None, net_retry=None, net_kind="reset", callback=None,
+         raising=(), tolerate=True, mode="irun", dur=None, consumer=None, delay=None, get_timeout=0.03):
+    ids = list(ids)
+    flaky = {int(k): int(v) for k, v in (flaky or {}).items() if int(v) > 0 and int(k) in ids}
+    if flaky and len(set(ids)) != len(ids):
+        raise ValueError("flaky ids need distinct ids (the runner counts attempts per id)")
+    if callback is not None and not set(ids) <= set(callback["table"]):
+        raise ValueError("a progress callback is built from a table that contains the ids of its own run")
+    return {"x": True, "ids": ids, "parallel": parallel, "max_tasks": max_tasks, "gen": bool(gen),
+            "flaky": {str(k): v for k, v in sorted(flaky.items())}, "net_retry": net_retry, "net_kind": net_kind,
+            "callback": callback, "raising": sorted(set(raising) & set(ids)), "tolerate": tolerate, "mode": mode,
+            "dur": dur or {}, "consumer": consumer or {}, "sched": {"get_timeout": get_timeout, "delay": delay or {}}}
+
+
+def _session(runs, src, timeout=None):
+    return {"session": list(runs), "src": src, "timeout": timeout or 10 + 6 * len(runs)}
+
+
+DEFAULT_NET_RETRY = 3       # only used to choose interesting fault counts; the reference is Coq's new_obj
+
+
+def retry_family() -> list[dict]:
+    """k leading network errors for k = 0 .. net_retry + 1 (the last permitted attempt succeeds / one more: the
+    failure is delivered), net_retry tuned 0..3 and untouched, generator and plain tasks, both paths."""
+    out = []
+    for gen in (True, False):
+        for nr in (None, 0, 1, 2, 3):
+            eff = DEFAULT_NET_RETRY if nr is None else nr
+            for par, m in ((1, 25), (3, 2)):
+                base = 10 * (eff + 1) + (100 if gen else 0)
+                ids = list(range(base, base + 6))
+                flaky = {ids[1]: eff, ids[2]: min(1, eff), ids[3]: max(eff - 1, 0), ids[4]: eff + 1}
+                kind = ("reset", "pipe", "wrapped")[(eff + par) % 3]
+                out.append(_session([_mkx(ids, par, m, gen=gen, flaky=flaky, net_retry=nr, net_kind=kind,
+                                          raising=[ids[5]], dur={"default": 0.002})], "retry"))
+    # the failure of an exhausted retry aborts an intolerant run; Parallel.run(); one id only (parallel > ids)
+    out.append(_session([_mkx([7, 8, 9], 1, 25, flaky={8: 4}, tolerate=False)], "retry-intolerant"))
+    out.append(_session([_mkx([7, 8, 9], 1, 25, flaky={8: 3}, tolerate=False)], "retry-intolerant"))
+    out.append(_session([_mkx([7, 8, 9, 10], 2, 25, flaky={8: 1}, net_retry=0, tolerate=False,
+                              dur={"default": 0.004})], "retry-intolerant"))
+    out.append(_session([_mkx(range(20, 26), 2, 3, flaky={22: 3, 24: 1}, mode="run")], "retry-run"))
+    out.append(_session([_mkx(range(20, 26), 1, 3, flaky={22: 3, 24: 4}, mode="run", gen=False)], "retry-run"))
+    out.append(_session([_mkx([2], 4, 25, flaky={2: 3})], "retry-single-id"))
+    out.append(_session([_mkx(range(12), 4, 1, flaky={i: i % 4 for i in range(12)}, net_kind="pipe",
+                              dur={"default": 0.003})], "retry-max-tasks-1"))
+    return out
+
+
+def session_family() -> list[dict]:
+    """a pool with a progress callback over its own ids, followed in the same process by pools nobody registered a
+    callback on, over other ids; tunings of an earlier pool followed by an untuned pool that needs the default."""
+    out = []
+    for in_thread in (False, True):
+        for pa, pb in ((2, 3), (1, 1), (1, 3), (3, 1)):
+            a = _mkx([1, 2, 3], pa, 25, callback={"table": [1, 2, 3], "in_thread": in_thread}, dur={"default": 0.002})
+            b = _mkx(range(10, 15), pb, 2, gen=bool(pa % 2), dur={"default": 0.002})
+            out.append(_session([a, b], "callback-then-fresh-pool"))
+    for pa, pb, pc in ((1, 1, 1), (2, 1, 3), (1, 3, 2)):
+        a = _mkx([1, 2, 3, 4], pa, 25, net_retry=0, callback={"table": list(range(8)), "in_thread": False})
+        b = _mkx([20, 21, 22, 23], pb, 25, flaky={21: 3, 22: 1}, dur={"default": 0.002})
+        c = _mkx([30, 31, 32], pc, 1, callback={"table": [30, 31, 32], "in_thread": True}, gen=False,
+                 dur={"default": 0.002})
+        d = _mkx([1, 40, 41], pb, 25, raising=[40])
+        out.append(_session([a, b, c, d], "tuned-callback-then-fresh-pools"))
+    # the same ids again in a later pool; an empty run in between
+    a = _mkx([5, 6, 7], 2, 1, callback={"table": [5, 6, 7], "in_thread": True}, dur={"default": 0.002})
+    out.append(_session([a, _mkx([], 3, 25), _mkx([5, 6, 7, 8], 2, 25, dur={"default": 0.002})], "callback-then-same-ids"))
+    return out
+
+
+def random_sessions(ctx, count: int) -> list[dict]:
+    rng = ctx.rng("sessions")
+    out = []
+    for _ in range(count):
+        runs = []
+        nruns = rng.choice([1, 1, 2, 2, 3])
+        for k in range(nruns):
+            n = rng.choice([0, 1, 2, 3, 4, 5, 6, 8, 10])
+            lo = rng.choice([0, 50 * k, 50 * k])                  # mostly other ids than the pools before
+            ids = rng.sample(range(lo, lo + 40), n)
+            p = rng.randint(1, 4)
+            m = rng.choice([1, 2, 3, 25])
+            nr = rng.choice([None, None, 0, 1, 2, 3])
+            eff = DEFAULT_NET_RETRY if nr is None else nr
+            flaky = {}
+            if rng.random() < 0.7:
+                for i in ids:
+                    if rng.random() < 0.4:
+                        flaky[i] = rng.choice([eff, eff, eff + 1, rng.randint(0, eff + 1)])
+            raising = [i for i in ids if rng.random() < rng.choice([0, 0, 0.2])]
+            cb = None
+            if rng.random() < (0.6 if k + 1 < nruns else 0.25):
+                extra = rng.sample(range(300, 340), rng.choice([0, 0, 2]))
+                cb = {"table": sorted(ids + extra), "in_thread": rng.random() < 0.5}
+            tol = rng.random() < 0.85
+            u = rng.choice([0, 0.002, 0.004])
+            cons = {"nth": {"0": 0.08}} if (n and rng.random() < 0.1) else {}
+            delay = {}
+            r = rng.random()
+            if r < 0.1:
+                delay["before_reap"] = {"nth": {str(rng.randrange(3)): 0.05}}
+            elif r < 0.18:
+                delay["put_done"] = 0.005
+            mode = "run" if (rng.random() < 0.15 and tol and not cons) else "irun"
+            runs.append(_mkx(ids, p, m, gen=rng.random() < 0.7, flaky=flaky, net_retry=nr,
+                             net_kind=rng.choice(["reset", "pipe", "wrapped"]), callback=cb, raising=raising,
+                             tolerate=tol, mode=mode, dur={"default": u} if u else {}, consumer=cons, delay=delay,
+                             get_timeout=rng.choice([0.02, 0.03])))
+        out.append(_session(runs, "random-session"))
     return out
 
 
@@ -516,6 +647,207 @@ def case_term(case: dict, out: dict, tr) -> str:
             f"{trs}, {coutcome(out)})")
 
 
+# ---- extended runs
+
+IMPORTS_X = "From Annet Require Import Model.Pool Spec.P_C12 Model.PoolSession Spec.P_C12x."
+TY_X = ("list nat * bool * list nat * list (nat * nat) * (nat * nat * bool * option nat) * "
+        "(list (list nat) * list (list nat)) * option (list label * list label) * xoutcome")
+
+
+def extra_defs_x(brk: str) -> str:
+    return f"""
+Definition xrun := ({TY_X})%type.
+Definition xobj (tcb cb : list (list nat)) (nr : option nat) : pobj :=
+  PObj (map CbTable tcb) (map CbTable cb) (match nr with Some n => n | None => o_retry new_obj end).
+Definition agreex (c : xrun) : bool :=
+  match c with (ids, gen, raising, flaky, (par, m, tol, nr), (tcb, cb), tr, o) =>
+    let ob := xobj tcb cb nr in
+    let tk := std_task gen raising flaky in
+    if Nat.eqb (pool_size par (List.length ids)) 1 then xoutcome_eqb (run_obj ob ids tol tk) o
+    else match tr with
+         | Some (recd, wit) =>
+           replay_ok (Cfg ids (pool_size par (List.length ids)) m tol (fun i => shadow (eff_f (o_retry ob) tk i))
+                          ({brk}) lawful_exit) recd wit (shadow_outcome o)
+         | None => true
+         end
+  end.
+(* what was submitted to the pool of this run - and only that - with what its caller received *)
+Definition judged (c : xrun) : xinput * xoutcome :=
+  match c with (ids, gen, raising, flaky, (par, m, tol, nr), (tcb, cb), tr, o) =>
+    ((ids, tol, eff_f (o_retry (xobj tcb cb nr)) (std_task gen raising flaky)), o)
+  end.
+Definition agree_session (s : list xrun) : bool := forallb agreex s.
+Definition holds_session (s : list xrun) : bool := P_C12_session (map judged s).
+Definition holds_run (c : xrun) : bool := P_C12x (fst (judged c)) (snd (judged c)).
+"""
+
+
+def cxval(r: list) -> str:
+    i, kind, v = r
+    if not (isinstance(i, int) and 0 <= i < 5000):
+        raise core.CheckFailure(f"result outside the printable domain: {r}")
+    if kind == "fail":
+        if not (isinstance(v, int) and 0 <= v < 50000):
+            raise core.CheckFailure(f"result outside the printable domain: {r}")
+        return f"({i}, XFail {v})"
+    if kind == "failother":
+        return f"({i}, XFailOther)"
+    if v[0] == "int" and 0 <= v[1] < 50000:
+        return f"({i}, XOk (PInt {v[1]}))"
+    if v[0] == "list" and all(0 <= x < 50000 for x in v[1]):
+        return f"({i}, XOk (PList {clist(str(x) for x in v[1])}))"
+    if v[0] == "lazy":
+        return f"({i}, XOk PLazy)"
+    return f"({i}, XOk POther)"
+
+
+def cxoutcome(o: dict) -> str:
+    d = clist(cxval(r) for r in o["delivered"])
+    if o["outcome"] == "done":
+        return f"XCompleted {d}"
+    if o["outcome"] == "raised" and isinstance(o["raised_id"], int):
+        return f"XRaised {o['raised_id']} {d}"
+    return f"XOther {d}"
+
+
+def xcase_term(run: dict, out: dict, tr) -> str:
+    ids = clist(str(i) for i in run["ids"])
+    rs = clist(str(i) for i in run["raising"])
+    fl = clist(f"({k}, {v})" for k, v in run["flaky"].items())
+    nr = "None" if run["net_retry"] is None else f"Some {run['net_retry']}"
+    cb = run["callback"]
+    tbl = clist(str(i) for i in cb["table"]) if cb else ""
+    tcb = clist([tbl] if cb and cb["in_thread"] else [])
+    pcb = clist([tbl] if cb and not cb["in_thread"] else [])
+    if tr is None:
+        trs = "None"
+    else:
+        trs = f"Some ({clist(clabel(l) for l in tr[0])}, {clist(clabel(l) for l in tr[1])})"
+    return (f"({ids}, {cbool(run['gen'])}, {rs}, {fl}, ({cnat(run['parallel'])}, {cnat(run['max_tasks'])}, "
+            f"{cbool(run['tolerate'])}, {nr}), ({tcb}, {pcb}), {trs}, {cxoutcome(out)})")
+
+
+def classify_x(run: dict, out: dict, k: int) -> str:
+    ids = sorted(run["ids"])
+    got = sorted(r[0] for r in out["delivered"])
+    path = "sequential" if min(run["parallel"], len(ids)) == 1 else "pool"
+    later = "/pool-run-after-other-pools" if k > 0 else ""
+    if out["outcome"] == "timeout":
+        kind = "no-termination"
+    elif out["outcome"] in ("error", "skipped"):
+        kind = "unexpected-exception"
+    elif out["outcome"] == "done" and len(got) < len(ids):
+        kind = "results-lost"
+    elif len(got) > len(ids):
+        kind = "result-delivered-twice"
+    elif out["outcome"] == "done" and got != ids:
+        kind = "wrong-ids"
+    elif any(r[1] == "ok" and r[2][0] == "lazy" for r in out["delivered"]):
+        kind = "generator-result-not-consumed"
+    elif any(r[1] == "failother" for r in out["delivered"]):
+        kind = "failure-the-task-did-not-raise"
+    elif out["outcome"] == "raised":
+        kind = "unexpected-raise"
+    else:
+        kind = "wrong-payload"
+    return f"C12/{path}/{kind}{later}"
+
+
+def session_terms(sessions: list[dict], souts: list[dict], stats: dict) -> list[list[str]]:
+    """per session the Coq terms of its runs (with the witness of each recorded pool trace)"""
+    out = []
+    for s, so in zip(sessions, souts):
+        terms = []
+        for run, o in zip(s["session"], so["session"]):
+            pool = min(run["parallel"], len(run["ids"]))
+            tr = None
+            if pool != 1 and o.get("hook") and o["outcome"] in ("done", "raised") and \
+                    len(set(run["ids"])) == len(run["ids"]):
+                try:
+                    rec = recorded_labels(o["trace"])
+                    wit, inv, complete = build_witness(run, pool, rec)
+                    tr = ([lab for _, _, lab in rec], wit)
+                    stats["traced"] += 1
+                    stats["witness_incomplete"] += not complete
+                    stats["max_inversion_us"] = max(stats["max_inversion_us"], inv)
+                except Anomaly as e:
+                    stats["anomalies"].append(str(e))
+                    tr = ([("LBreak",)], [])
+            terms.append(xcase_term(run, o, tr))
+        out.append(terms)
+    return out
+
+
+def evaluate_x(ctx, sessions: list[dict], souts: list[dict], brk: str, tag: str):
+    """one Coq term per session (the list of its runs): holds = P_C12_session, agree = every run is a run of
+    the model.  Returns (res, stats, terms)."""
+    stats = {"traced": 0, "witness_incomplete": 0, "max_inversion_us": 0, "anomalies": []}
+    terms = session_terms(sessions, souts, stats)
+    res = core.run_case_files(ID, f"list ({TY_X})", IMPORTS_X, {"agree": "agree_session", "holds": "holds_session"},
+                              [clist(t) for t in terms], per_file=25, tag=tag, extra_defs=extra_defs_x(brk))
+    return res, stats, terms
+
+
+def locate_x(run_terms: list[str], brk: str, tag: str) -> dict:
+    """which runs of ONE session fail: the conjuncts of the session predicates, evaluated by Coq one by one"""
+    return core.run_case_files(ID, TY_X, IMPORTS_X, {"agree": "agreex", "holds": "holds_run"}, run_terms,
+                               per_file=40, tag=tag, extra_defs=extra_defs_x(brk))
+
+
+def order_run_mode(run: dict, o: dict) -> None:
+    """Parallel.run returns dicts: restore the order of delivery for the comparison with the model"""
+    if run.get("mode") == "run":
+        order = [r[3] for r in o.get("trace", []) if r[2] == "deliver"] or list(run["ids"])
+        o["delivered"].sort(key=lambda r: order.index(r[0]) if r[0] in order else len(order))
+
+
+def slim_session(s: dict) -> dict:
+    return {"session": [{k: v for k, v in r.items() if v not in ({}, [], None)} for r in s["session"]],
+            "src": s.get("src"), "timeout": s.get("timeout")}
+
+
+def _came_back(o: dict) -> bool:
+    return o.get("outcome") != "skipped" and "session" in o
+
+
+def run_sessions(ctx, sessions: list[dict], brk: str, tag: str = "xcases"):
+    """-> (sessions kept, outputs, res, stats, terms, skipped)"""
+    souts = core.run_impl_sharded("c12_runner.py", sessions, shards=min(core.NPROC, max(1, len(sessions) // 3)),
+                                  timeout=1500)
+    live = [(s, o) for s, o in zip(sessions, souts) if _came_back(o)]
+    skipped = len(sessions) - len(live)
+    sessions = [s for s, _ in live]
+    souts = [o for _, o in live]
+    for s, so in zip(sessions, souts):
+        for run, o in zip(s["session"], so["session"]):
+            order_run_mode(run, o)
+    res, stats, terms = evaluate_x(ctx, sessions, souts, brk, tag)
+    # an aborted run can carry a truncated worker account (see run()): such a session is repeated, the
+    # disagreement is reported only if the same session disagrees every time
+    stats["aborted_runs_repeated"] = 0
+    for attempt in range(2):
+        again = [i for i in res["agree"] if i not in res["holds"]
+                 and any(o["outcome"] == "raised" for o in souts[i]["session"])]
+        if not again:
+            break
+        stats["aborted_runs_repeated"] += len(again)
+        outs2 = core.run_impl("c12_runner.py", [sessions[i] for i in again], timeout=600)
+        keep = [j for j, o in enumerate(outs2) if _came_back(o)]
+        for j in keep:
+            for run, o in zip(sessions[again[j]]["session"], outs2[j]["session"]):
+                order_run_mode(run, o)
+        res2, _, terms2 = evaluate_x(ctx, [sessions[again[j]] for j in keep], [outs2[j] for j in keep], brk,
+                                     f"{tag}_again{attempt}")
+        for jj, j in enumerate(keep):
+            i = again[j]
+            souts[i], terms[i] = outs2[j], terms2[jj]
+            if jj not in res2["agree"]:
+                res["agree"].remove(i)
+            if jj in res2["holds"]:
+                res["holds"].append(i)
+    return sessions, souts, res, stats, terms, skipped
+
+
 def classify(case: dict, out: dict) -> str:
     ids = sorted(case["ids"])
     got = sorted(r[0] for r in out["delivered"])
@@ -635,7 +967,58 @@ def run(ctx):
                                                      "delivered": o["delivered"]},
                     "loop_shape_in_source": gen,
                     "failing_schedules_in_this_run": len(res["holds"])}))
-    if not bad_holds:
+    # ---- extended runs and sessions (generator tasks, retries, callbacks, several pools per process)
+    if hook:
+        xs = retry_family() + session_family() + random_sessions(ctx, 600 if ctx.thorough else 70)
+    else:       # 1 s polls: the single-process sessions and a few real pools
+        fixed = retry_family() + session_family()
+        seq_only = [x for x in fixed if all(min(r["parallel"], len(r["ids"])) <= 1 for r in x["session"])]
+        xs = seq_only + [x for x in fixed if x not in seq_only][:6]
+        for x in xs:
+            x["timeout"] = 60
+            for r in x["session"]:
+                r["sched"] = {}
+    xs, xouts, xres, xstats, xterms, xskipped = run_sessions(ctx, xs, brk)
+    (core.BUILD / "c12_last_sessions.json").write_text(json.dumps({"sessions": xs, "outs": xouts, "res": xres}))
+    xbad = sorted(xres["holds"], key=lambda i: (len(xs[i]["session"]), sum(len(r["ids"]) for r in xs[i]["session"]), i))
+    xbad_shown = xbad[:12]
+    flat = [(i, k) for i in xbad_shown for k in range(len(xterms[i]))]
+    loc = locate_x([xterms[i][k] for i, k in flat], brk, "xlocate") if flat else {"holds": []}
+    for i in xbad_shown:
+        ks = [flat[t][1] for t in loc["holds"] if flat[t][0] == i] or [0]
+        k = ks[0]
+        run_k, out_k = xs[i]["session"][k], xouts[i]["session"][k]
+        sig = classify_x(run_k, out_k, k)
+        if sig in seen_sig:
+            continue
+        seen_sig.add(sig)
+        ctx.add_violation(core.Violation(
+            signature=sig,
+            what=f"session {xs[i]['src']} ({len(xs[i]['session'])} pools run one after another by one process), pool "
+                 f"number {k}: submitted {len(run_k['ids'])} ids, parallel {run_k['parallel']}, "
+                 f"{'generator' if run_k['gen'] else 'plain'} task, net_retry {run_k['net_retry']}, network errors "
+                 f"before success per id {run_k['flaky']}, callback {run_k['callback']}: outcome {out_k['outcome']}, "
+                 f"delivered {out_k['delivered'][:8]}",
+            replay={"session": slim_session(xs[i]), "failing_pool": k, "failing_pools": ks,
+                    "impl": [{"outcome": o["outcome"], "raised_id": o["raised_id"], "delivered": o["delivered"]}
+                             for o in xouts[i]["session"]],
+                    "loop_shape_in_source": gen, "failing_sessions_in_this_run": len(xres["holds"])}))
+    any_bad = bool(bad_holds) or bool(xbad)
+    if not any_bad:
+        for i in xres["agree"][:1]:
+            ctx.add_violation(core.Violation(
+                signature="C12/model-impl-disagree/session", no_input=True,
+                what="a run of a session is not a run of the model (Model/PoolSession.v's run_obj on the single-process "
+                     "path, a trace of Model/Pool.v on the pool path); P_C12x holds on all implementation outputs",
+                replay={"correspondence": "Model.PoolSession.run_obj / Model.Pool.exec vs annet.parallel",
+                        "session": slim_session(xs[i]),
+                        "impl": [{k: o.get(k) for k in ("outcome", "raised_id", "delivered", "trace")}
+                                 for o in xouts[i]["session"]]}))
+        if xskipped:
+            ctx.add_violation(core.Violation(signature="C12/sessions-skipped", no_input=True,
+                                             what=f"{xskipped} sessions skipped after repeated timeouts",
+                                             replay={"skipped": xskipped}))
+    if not any_bad:
         if not hook:
             ctx.add_violation(core.Violation(
                 signature="C12/hook-absent", no_input=True,
@@ -649,7 +1032,7 @@ def run(ctx):
                      "from seq_run); P_C12 holds on all implementation outputs explored",
                 replay={"correspondence": "Model.Pool.exec vs annet.parallel trace", "case": slim(cases[i]),
                         "impl": {k: outs[i][k] for k in ("outcome", "raised_id", "delivered", "trace")}}))
-    if skipped and not bad_holds:
+    if skipped and not any_bad:
         ctx.add_violation(core.Violation(signature="C12/cases-skipped", no_input=True,
                                          what=f"{skipped} schedules skipped after repeated timeouts",
                                          replay={"skipped": skipped}))
@@ -671,14 +1054,62 @@ def run(ctx):
         if pool >= 2 and len(c["ids"]) >= 3 and ("retire" in evs or "empty" in evs or c["consumer"] or c["raising"]):
             nontrivial += 1
     sample_i = [i for i, c in enumerate(cases) if c["src"] in ("F1-slow-consumer", "slow-before-reap", "grid")][:3]
+    xruns = [(x, k, r, o) for x, xo in zip(xs, xouts) for k, (r, o) in enumerate(zip(x["session"], xo["session"]))]
+    xseen, xnontrivial = set(), 0
+    xhist = {"sessions": len(xs), "pools": len(xruns), "by_source": {}, "pools_per_session": {},
+             "generator_task": 0, "plain_task": 0, "single_process_path": 0, "pool_path": 0,
+             "net_retry": {}, "ids_by_leading_network_errors_minus_net_retry": {}, "with_callback": 0,
+             "with_in_thread_callback": 0, "no_callback_after_a_pool_with_callback": 0,
+             "untuned_after_a_tuned_pool": 0, "delivered_after_last_permitted_attempt": 0,
+             "delivered_failure_of_exhausted_retry": 0}
+    for x in xs:
+        xhist["by_source"][x["src"]] = xhist["by_source"].get(x["src"], 0) + 1
+        n = str(len(x["session"]))
+        xhist["pools_per_session"][n] = xhist["pools_per_session"].get(n, 0) + 1
+    for x, k, r, o in xruns:
+        eff = DEFAULT_NET_RETRY if r["net_retry"] is None else r["net_retry"]
+        xhist["generator_task" if r["gen"] else "plain_task"] += 1
+        xhist["single_process_path" if min(r["parallel"], len(r["ids"])) == 1 else "pool_path"] += 1
+        xhist["net_retry"][str(r["net_retry"])] = xhist["net_retry"].get(str(r["net_retry"]), 0) + 1
+        for v in r["flaky"].values():
+            d = str(v - eff)
+            xhist["ids_by_leading_network_errors_minus_net_retry"][d] = \
+                xhist["ids_by_leading_network_errors_minus_net_retry"].get(d, 0) + 1
+        last = [int(i) for i, v in r["flaky"].items() if v == eff and int(i) not in r["raising"]]
+        xhist["delivered_after_last_permitted_attempt"] += sum(1 for d in o["delivered"] if d[0] in last)
+        gone = [int(i) for i, v in r["flaky"].items() if v > eff]
+        xhist["delivered_failure_of_exhausted_retry"] += sum(1 for d in o["delivered"] if d[0] in gone)
+        if r["callback"]:
+            xhist["with_callback"] += 1
+            xhist["with_in_thread_callback"] += bool(r["callback"]["in_thread"])
+        earlier = x["session"][:k]
+        if not r["callback"] and r["ids"] and any(e["callback"] for e in earlier):
+            xhist["no_callback_after_a_pool_with_callback"] += 1
+        if r["net_retry"] is None and any(e["net_retry"] is not None for e in earlier):
+            xhist["untuned_after_a_tuned_pool"] += 1
+        kx = core.canon_hash({kk: r.get(kk) for kk in r if kk != "x"})
+        if kx not in xseen:
+            xseen.add(kx)
+            if r["ids"] and (r["flaky"] or r["callback"] or k > 0):
+                xnontrivial += 1
     ctx.coverage.update({
-        "evaluations": len(cases),
-        "distinct_nontrivial": nontrivial,
+        "evaluations": len(cases) + len(xruns),
+        "distinct_nontrivial": nontrivial + xnontrivial,
+        "extended_runs": xhist,
+        "extended_traces_recorded": xstats["traced"],
+        "extended_witness_search_incomplete": xstats["witness_incomplete"],
+        "extended_aborted_sessions_repeated": xstats["aborted_runs_repeated"],
+        "extended_disagreements_checked": len(xres["agree"]),
+        "extended_holds_false": len(xres["holds"]),
+        "extended_skipped_after_timeouts": xskipped,
         "rule": "schedules = adversarial list (slow consumer, slow parent between get and reaping, lingering exits, "
                 "retirement at the end, failures, duplicates) + small scope n<=4 x pool<=3 x max_tasks<=2 + seeded "
                 "random grid n<=40, pool<=8, max_tasks<=25; distinct by the whole schedule; non-trivial = real pool "
                 "(pool_size>=2) with >=3 ids and at least one of: a worker retired, a get timed out, a consumer "
-                "delay, a failing task",
+                "delay, a failing task; + extended runs (retry family: k = 0..net_retry+1 leading network errors x "
+                "net_retry untouched/0..3 x generator/plain task x both paths; sessions: a pool with a progress callback "
+                "followed in the same process by pools without callbacks over other ids; seeded random sessions of 1..3 "
+                "pools), a pool counted non-trivial if it has ids and a flaky id, a callback, or pools before it",
         "samples": [{"schedule": slim(cases[i]), "outcome": outs[i]["outcome"], "delivered": outs[i]["delivered"],
                      "trace_head": outs[i]["trace"][:12]} for i in sample_i],
         "traces_validated_against_impl": stats["traced"] - len([i for i in res["agree"]]),
@@ -701,18 +1132,39 @@ def run(ctx):
         "get(True, t) raises queue.Empty only if the queue is empty at that instant",
         "no worker is killed from outside, task_timeout (1800 s) does not expire, no in-thread callbacks",
         "trace inclusion is per actor (no global clock is trusted); the hook's get_timeout shortens the 1 s poll",
+        "extended runs: callbacks are progress-logger-like (table lookup, result returned) with a table containing "
+        "the ids of their own run; the retried errors are BrokenPipeError / ConnectionResetError (also as the "
+        "context of another exception); the pools of a session are created and run one after another, never "
+        "concurrently",
     ]
     ctx.notes.append(META["note"])
 
 
 def replay(ctx, doc):
+    from ..translators import tr_parallel
+    if "session" in doc["replay"]:
+        x = doc["replay"]["session"]
+        sess = _session([_mkx(r["ids"], r["parallel"], r["max_tasks"], gen=r.get("gen", False), flaky=r.get("flaky"),
+                              net_retry=r.get("net_retry"), net_kind=r.get("net_kind", "reset"),
+                              callback=r.get("callback"), raising=r.get("raising", ()), tolerate=r.get("tolerate", True),
+                              mode=r.get("mode", "irun"), dur=r.get("dur"), consumer=r.get("consumer"))
+                         for r in x["session"]], x.get("src", "replay"), timeout=max(40, x.get("timeout") or 0))
+        for r, r0 in zip(sess["session"], x["session"]):
+            r["sched"] = r0.get("sched", {})
+        brk = tr_parallel.translate(core.REPO)[0][2]["break"]
+        xs, xouts, xres, _, _, _ = run_sessions(ctx, [sess], brk, tag="xreplay")
+        if not xs:
+            print("impl: the session did not come back")
+            return 1
+        print("impl:", json.dumps([{k: o[k] for k in ("outcome", "raised_id", "delivered")} for o in xouts[0]["session"]]),
+              "holds:", not xres["holds"])
+        return 1 if xres["holds"] else 0
     c = doc["replay"]["case"]
     case = _mk(c["ids"], c["parallel"], c["max_tasks"], raising=c.get("raising", ()), tolerate=c.get("tolerate", True),
                mode=c.get("mode", "irun"), dur=c.get("dur"), consumer=c.get("consumer"), src=c.get("src", "replay"),
                timeout=c.get("timeout", 40), unpicklable=c.get("unpicklable", ()))
     case["sched"] = c.get("sched", {})
     out = core.run_impl("c12_runner.py", [case], timeout=300)[0]
-    from ..translators import tr_parallel
     brk = tr_parallel.translate(core.REPO)[0][2]["break"]
     res, _ = evaluate(ctx, [case], [out], brk, "replay")
     print("impl:", json.dumps({k: out[k] for k in ("outcome", "raised_id", "delivered")}), "holds:", not res["holds"])
